@@ -8,6 +8,7 @@ CONSTANTS
   SeekMax = 100000000
   Ops = TRUE
   Hints = {}
+  Faults = {"raise", "short"}
   IterSingleLine = FALSE
   Emit = FALSE
 SPECIFICATION TSpec
